@@ -944,6 +944,21 @@ class ObjRun:
                 return not ob.is_cond
             except Exception:
                 return False
+        if op.get("times", 3) % 2 == 1 and "x" in self.G["dens"]:
+            # a reduced distribution that CARRIES CONSTANTS: the sub-joint of the prior of x and the hyper-priors it depends
+            # on, with the hyper-parameters fixed (what is left is a plain distribution for x plus the evaluated hyper-priors)
+            try:
+                dx = self.G["dens"]["x"]
+                hyp = [n_ for n_ in dx.get_conditioning_variables() if n_ in self.G["dens"] and n_ in self.vals]
+                if hyp and all(not self.G["dens"][h_].get_conditioning_variables() for h_ in hyp):
+                    sub = JointDistribution(dx, *[self.G["dens"][h_] for h_ in hyp])(**{h_: self.vals[h_] for h_ in hyp})
+                    if isinstance(sub, Distribution) and not isinstance(sub, (Posterior, JointDistribution)):
+                        o = Obj(sub, "derived", [{"names": hyp, "how": "kw", "special": "subjoint"}], set(hyp), "dens:x")
+                        self.ctx.hit("reduced_distribution_with_constants")
+            except core.SimCrash:
+                raise
+            except Exception:
+                pass
         if not eligible(o):
             # prefer a distribution that was itself produced by a reduction (it carries the constants of the variables
             # fixed on the way), else any unconditional distribution in the pool
@@ -970,6 +985,30 @@ class ObjRun:
             except Exception:
                 break
         self.ctx.hit("derived_object_reused_in_new_joint")
+        # ... and as the PRIOR of a new data distribution: the posterior of the new joint evaluates to the new joint's
+        # log-density (the constants the reduced distribution carries from the variables fixed earlier included)
+        try:
+            nm = obj.name
+            dim_ = int(obj.dim)
+            xv = np.asarray(self.vals[nm], float).reshape(-1) if nm in self.vals else np.linspace(0.1, 0.5, dim_)
+            if xv.size != dim_:
+                return
+            yy = Gaussian(graphs.named_fn(nm, lambda v: 0.5 * np.asarray(v, float).reshape(-1)), 0.3, geometry=dim_, name="y_extra")
+            J3 = JointDistribution(yy, obj)
+            dat = np.linspace(-0.3, 0.4, dim_)
+            a_ = float(np.ravel(J3(y_extra=dat).logd(xv))[0])
+            b_ = float(np.ravel(J3.logd(**{"y_extra": dat, nm: xv}))[0])
+            c_ = float(np.ravel(J3(**{nm: xv}).logd(dat))[0])
+        except core.SimCrash:
+            raise
+        except Exception:
+            return
+        if self.fault_fired or not (np.isfinite(a_) and np.isfinite(b_)):
+            return
+        self.ctx.count("c01_values")
+        if not close(a_, b_, 1e-9) or not close(c_, b_, 1e-9):
+            self.ctx.violate("C01", "wrong_value", {"engine": "objhist", "obj_class": type(obj).__name__, "how": "reused_as_prior",
+                                                    "graph": self.sc["graph"]["graph"]}, posterior=a_, joint=b_, likelihood_view=c_)
 
     def op_mutate_copy(self, o, op):
         """NOT GENERATED (kept for experiments only).  Explicit setters on a derived object are not "conditioning,
